@@ -9,7 +9,9 @@ model uses.  If the source changes, the regenerated definition changes and the b
 
 The translator handles a small expression subset: names, integer constants, + - * / and unary minus,
 comparisons, and/or/not, conditional expressions, `frac(a, b)`, `min/max`, and function bodies made of
-`if …: return …` / `return …` / simple assignments.  Sub-expressions that stand for model quantities
+`if …: return …` / `return …` / simple assignments; of an assignment whose value is a comprehension or
+`sum(generator)` the element expression can be taken (`assign(…, elt=True)`), and a module-level integer
+constant can be read (`const`).  Sub-expressions that stand for model quantities
 (`int(project in ballot)`, `project.cost`, `supporter.budget`, …) are replaced by parameters through a
 per-leaf table of source snippets.  Anything else raises TranslationError: the leaf is then rendered as an
 unusable placeholder, so that its bridge theorem fails and the obligation is reported as broken.
@@ -225,6 +227,13 @@ TIE = "pabutools/tiebreaking.py"
 UTL = "pabutools/utils.py"
 VSAT = "pabutools/analysis/votersatisfaction.py"
 COH = "pabutools/analysis/cohesiveness.py"
+JRP = "pabutools/analysis/justifiedrepresentation.py"
+PRI = "pabutools/analysis/priceability.py"
+COMP = "pabutools/rules/composition.py"
+APR = "pabutools/election/profile/approvalprofile.py"
+SATM = "pabutools/election/satisfaction/satisfactionmeasure.py"
+SATP = "pabutools/election/satisfaction/satisfactionprofile.py"
+PROF = "pabutools/election/profile/profile.py"
 
 IN_B = {"int(project in ballot)": "inB", "project.cost": "cost"}
 
@@ -236,9 +245,17 @@ def whole(path, qual, env, bools=(), ret_bool=False):
     return go
 
 
-def assign(path, qual, target, env, k=0, bools=(), augment=None):
+def assign(path, qual, target, env, k=0, bools=(), augment=None, elt=False):
+    """`elt=True`: the assigned value is a comprehension / `sum(generator)`; translate its element expression"""
+
     def go():
         op, val = Src(path).assign(qual, target, k)
+        if elt:
+            if isinstance(val, ast.Call) and ast.unparse(val.func) == "sum" and len(val.args) == 1 and not val.keywords:
+                val = val.args[0]
+            if not isinstance(val, (ast.ListComp, ast.GeneratorExp, ast.SetComp)):
+                raise TranslationError(f"assignment #{k} to {target} in {qual} is not a comprehension")
+            val = val.elt
         t = Tr(env, bools).expr(val)
         if op == "=":
             return t
@@ -262,6 +279,14 @@ def lam(path, var, env):
     return go
 
 
+def const(path, var):
+    """a module-level integer constant"""
+
+    def go():
+        return Tr({}).expr(Src(path).module_const(var))
+    return go
+
+
 def exprc(path, qual, contains, env, k=0, bools=(), kind=ast.Call):
     def go():
         return Tr(env, bools).expr(Src(path).expr_containing(qual, contains, k, kind))
@@ -269,6 +294,11 @@ def exprc(path, qual, contains, env, k=0, bools=(), kind=ast.Call):
 
 
 PV = lambda key: f'precomputed_values["{key}"]'  # noqa: E731
+RCMP = lambda a, b: f"round_cmp({a}, {b}, CHECK_ROUND_PRECISION)"  # noqa: E731
+LARGE = lambda group, projects: (  # noqa: E731
+    f"is_large_enough(sum((profile.multiplicity(b) for b in {group})), profile.num_ballots(), total_cost({projects}), instance.budget_limit)"
+)
+JR_ENV = {"sat.sat(budget_allocation)": "satW", "surplus": "surplus", "sat.sat(project_set)": "satT", "threshold": "threshold"}
 
 LEAVES = [
     # ---- C10: satisfaction measures (per-project values)
@@ -301,6 +331,100 @@ LEAVES = [
     # ---- C14: cohesiveness size test
     ("C14", "isLargeEnough", "(groupSize numVoters projectsCost budget : Rat)", "Bool",
      whole(COH, "is_large_enough", {"group_size": "groupSize", "num_voters": "numVoters", "projects_cost": "projectsCost", "budget_limit": "budget"}, ret_bool=True)),
+    ("C14", "missing", "(inW : Bool)", "Bool", test(JRP, "is_in_core", "p not in budget_allocation", {"p not in budget_allocation": "(!inW)"}, bools=("(!inW)",))),
+    ("C14", "noSurplus", "", "Rat", assign(JRP, "is_in_core", "surplus", {}, k=0)),
+    ("C14", "coreSizeTest", "(large : Bool)", "Bool", test(JRP, "is_in_core", "is_large_enough", {LARGE("group", "project_set"): "large"}, bools=("large",))),
+    ("C14", "coreGroupNonEmpty", "(groupLen : Rat)", "Bool", test(JRP, "is_in_core", "len(group)", {"len(group)": "groupLen"})),
+    ("C14", "coreVoterOk", "(satW surplus satT : Rat)", "Bool", test(JRP, "is_in_core", "sat.sat(budget_allocation) + surplus", JR_ENV)),
+    ("C14", "strongEJRApprovalFails", "(satW satT : Rat)", "Bool", test(JRP, "is_strong_EJR_approval", "sat.sat(budget_allocation)", JR_ENV)),
+    ("C14", "ejrApprovalOk", "(satW surplus satT : Rat)", "Bool", test(JRP, "is_EJR_approval", "sat.sat(budget_allocation) + surplus", JR_ENV)),
+    ("C14", "cardThresholdSummand", "(minScore : Rat)", "Rat", assign(JRP, "is_EJR_cardinal", "threshold", {"min((b[p] for b in group))": "minScore"}, elt=True)),
+    ("C14", "strongEJRCardinalFails", "(satW threshold : Rat)", "Bool", test(JRP, "is_strong_EJR_cardinal", "sat.sat(budget_allocation)", JR_ENV)),
+    ("C14", "ejrCardinalOk", "(satW surplus threshold : Rat)", "Bool", test(JRP, "is_EJR_cardinal", "sat.sat(budget_allocation) + surplus", JR_ENV)),
+    ("C14", "pjrApprovalThreshold", "(satT : Rat)", "Rat", assign(JRP, "is_PJR_approval", "threshold", JR_ENV)),
+    ("C14", "pjrApprovalGroupSat", "(satApproved surplus : Rat)", "Rat", assign(JRP, "is_PJR_approval", "group_sat", {"sat.sat(group_approved)": "satApproved", "surplus": "surplus"})),
+    ("C14", "pjrGroupApproves", "(someoneApproves : Bool)", "Bool",
+     test(JRP, "is_PJR_approval", "any(", {"any((p in b for b in group))": "someoneApproves"}, bools=("someoneApproves",))),
+    ("C14", "pjrApprovalFails", "(groupSat threshold : Rat)", "Bool", test(JRP, "is_PJR_approval", "group_sat", {"group_sat": "groupSat", "threshold": "threshold"})),
+    ("C14", "pjrCardinalGroupSummand", "(maxScore : Rat)", "Rat", assign(JRP, "is_PJR_cardinal", "group_sat", {"max((b[p] for b in group))": "maxScore"}, elt=True)),
+    ("C14", "pjrCardinalFails", "(groupSat surplus threshold : Rat)", "Bool",
+     test(JRP, "is_PJR_cardinal", "group_sat + surplus", {"group_sat": "groupSat", "surplus": "surplus", "threshold": "threshold"})),
+    *[("C14", f"upTo{which.capitalize()}{kind}{fam.capitalize()}", "(bound : Rat)", "Rat",
+       exprc(JRP, f"is_{kind}_{which}_{fam}", f"{fn}(x, default=0)", {f"{fn}(x, default=0)": "bound"}))
+      for kind in ("EJR", "PJR") for fam in ("approval", "cardinal") for which, fn in (("any", "min"), ("one", "max"))],
+    ("C14", "cohApprovalTooSmall", "(large : Bool)", "Bool", test(COH, "is_cohesive_approval", "is_large_enough", {LARGE("ballots", "projects"): "large"}, bools=("large",))),
+    ("C14", "cohApprovalEmpty", "(numBallots numProjects : Rat)", "Bool",
+     test(COH, "is_cohesive_approval", "len(ballots)", {"len(ballots)": "numBallots", "len(projects)": "numProjects"})),
+    ("C14", "cohApprovalPairFails", "(inBallot : Bool)", "Bool", test(COH, "is_cohesive_approval", "p not in ballot", {"p not in ballot": "(!inBallot)"}, bools=("(!inBallot)",))),
+    ("C14", "cohCardinalTooSmall", "(large : Bool)", "Bool", test(COH, "is_cohesive_cardinal", "is_large_enough", {LARGE("ballots", "projects"): "large"}, bools=("large",))),
+    ("C14", "cohCardinalEmpty", "(numBallots numProjects : Rat)", "Bool",
+     test(COH, "is_cohesive_cardinal", "len(ballots)", {"len(ballots)": "numBallots", "len(projects)": "numProjects"})),
+    ("C14", "cohCardinalPairFails", "(score alpha : Rat)", "Bool", test(COH, "is_cohesive_cardinal", "alpha[p]", {"ballot[p]": "score", "alpha[p]": "alpha"})),
+    ("C14", "cohGroupNonEmpty", "(groupLen : Rat)", "Bool", test(COH, "cohesive_groups", "len(group)", {"len(group)": "groupLen"})),
+    ("C14", "cohSetNonEmpty", "(setLen : Rat)", "Bool", test(COH, "cohesive_groups", "len(project_set)", {"len(project_set)": "setLen"})),
+    ("C14", "cohAlphaMin", "(minScore : Rat)", "Rat", exprc(COH, "cohesive_groups", "min((b[p]", {"min((b[p] for b in group))": "minScore"})),
+    # ---- C12: the price-system validator
+    ("C12", "checkRoundPrecision", "", "Rat", const(PRI, "CHECK_ROUND_PRECISION")),
+    ("C12", "roundCmp", "(roundedA roundedB : Rat)", "Rat", whole(UTL, "round_cmp", {"round(a, precision)": "roundedA", "round(b, precision)": "roundedB"})),
+    ("C12", "notSelected", "(inW : Bool)", "Bool", test(PRI, "validate_price_system", "c not in W", {"c not in W": "(!inW)"}, bools=("(!inW)",))),
+    ("C12", "spent", "(paySum : Rat)", "Rat", assign(PRI, "validate_price_system", "spent", {"sum((pf[idx][c] for c in C))": "paySum"}, elt=True)),
+    ("C12", "leftover", "(b spent : Rat)", "Rat", assign(PRI, "validate_price_system", "leftover", {"b": "b", "spent[idx]": "spent"}, elt=True)),
+    ("C12", "maxPayment", "(maxOrZero : Rat)", "Rat", assign(PRI, "validate_price_system", "max_payment", {"max((pf[idx][c] for c in C), default=0)": "maxOrZero"}, elt=True)),
+    ("C12", "c0aFails", "(total budget : Rat)", "Bool", test(PRI, "validate_price_system", "instance.budget_limit", {"total": "total", "instance.budget_limit": "budget"}, k=0)),
+    ("C12", "checksExhaustive", "(exhaustive : Bool)", "Bool", test(PRI, "validate_price_system", "exhaustive", {"exhaustive": "exhaustive"}, bools=("exhaustive",))),
+    ("C12", "c0bFails", "(total cost budget : Rat)", "Bool",
+     test(PRI, "validate_price_system", "total + c.cost", {"total": "total", "c.cost": "cost", "instance.budget_limit": "budget"})),
+    ("C12", "c1Fails", "(approves : Bool) (pay : Rat)", "Bool",
+     test(PRI, "validate_price_system", "c not in i", {"c not in i": "(!approves)", "pf[idx][c]": "pay"}, bools=("(!approves)",))),
+    ("C12", "negFails", "(cmp : Rat)", "Bool", test(PRI, "validate_price_system", RCMP("pf[idx][c]", "0"), {RCMP("pf[idx][c]", "0"): "cmp"})),
+    ("C12", "c2Fails", "(cmp : Rat)", "Bool", test(PRI, "validate_price_system", RCMP("spent[idx]", "b"), {RCMP("spent[idx]", "b"): "cmp"})),
+    ("C12", "paidFor", "(pay : Rat)", "Rat", assign(PRI, "validate_price_system", "s", {"pf[idx][c]": "pay"}, k=0, elt=True)),
+    ("C12", "c3Fails", "(cmp : Rat)", "Bool", test(PRI, "validate_price_system", RCMP("s", "c.cost"), {RCMP("s", "c.cost"): "cmp"}, k=0)),
+    ("C12", "paidForUnselected", "(pay : Rat)", "Rat", assign(PRI, "validate_price_system", "s", {"pf[idx][c]": "pay"}, k=1, elt=True)),
+    ("C12", "c4Fails", "(cmp : Rat)", "Bool", test(PRI, "validate_price_system", RCMP("s", "0"), {RCMP("s", "0"): "cmp"})),
+    ("C12", "plainBranch", "(stable : Bool)", "Bool", test(PRI, "validate_price_system", "not stable", {"stable": "stable"}, bools=("stable",))),
+    ("C12", "c5Supporter", "(approves : Bool)", "Bool", test(PRI, "validate_price_system", "c in i", {"c in i": "approves"}, k=0, bools=("approves",))),
+    ("C12", "c5Summand", "(leftover : Rat)", "Rat", assign(PRI, "validate_price_system", "s", {"leftover[idx]": "leftover"}, k=2, elt=True)),
+    ("C12", "c5Fails", "(cmp : Rat)", "Bool", test(PRI, "validate_price_system", RCMP("s", "c.cost"), {RCMP("s", "c.cost"): "cmp"}, k=1)),
+    ("C12", "s5Supporter", "(approves : Bool)", "Bool", test(PRI, "validate_price_system", "c in i", {"c in i": "approves"}, k=1, bools=("approves",))),
+    ("C12", "s5Summand", "(maxPayment leftover : Rat)", "Rat",
+     assign(PRI, "validate_price_system", "s", {"max_payment[idx]": "maxPayment", "leftover[idx]": "leftover"}, k=3, elt=True)),
+    ("C12", "s5Cost", "(noRelaxation : Bool) (cost relaxed : Rat)", "Rat",
+     assign(PRI, "validate_price_system", "cost", {"relaxation is None": "noRelaxation", "c.cost": "cost", "relaxation.get_relaxed_cost(c)": "relaxed"}, bools=("noRelaxation",))),
+    ("C12", "s5Fails", "(cmp : Rat)", "Bool", test(PRI, "validate_price_system", RCMP("s", "cost"), {RCMP("s", "cost"): "cmp"})),
+    ("C12", "accepts", "(noErrors : Bool)", "Bool", exprc(PRI, "validate_price_system", "not errors", {"not errors": "noErrors"}, kind=ast.UnaryOp, bools=("noErrors",))),
+    # ---- C19: rule comparison
+    *[("C19", name, params, "Bool", prod) for fn, suffix in (("social_welfare_comparison", ""), ("popularity_comparison", "Popularity")) for name, params, prod in (
+        (f"isNew{suffix}", "(differsFromAll : Bool)", test(COMP, fn, "results", {"all((set(res) != set(other) for other in results))": "differsFromAll"}, bools=("differsFromAll",))),
+        (f"differs{suffix}", "(same : Bool)", exprc(COMP, fn, "set(res)", {"set(res) != set(other)": "(!same)"}, kind=ast.Compare, bools=("(!same)",))),
+    )],
+    ("C19", "welfareImproves", "(first : Bool) (welfare best : Rat)", "Bool",
+     test(COMP, "social_welfare_comparison", "max_social_welfare",
+          {"max_social_welfare is None": "first", "social_welfare": "welfare", "max_social_welfare": "best"}, k=0, bools=("first",))),
+    ("C19", "welfareTies", "(welfare best : Rat)", "Bool",
+     test(COMP, "social_welfare_comparison", "max_social_welfare", {"social_welfare": "welfare", "max_social_welfare": "best"}, k=1)),
+    ("C19", "voterImproves", "(first : Bool) (s best : Rat)", "Bool",
+     test(COMP, "popularity_comparison", "max_sat", {"max_sat is None": "first", "s": "s", "max_sat": "best"}, k=0, bools=("first",))),
+    ("C19", "voterTies", "(s best : Rat)", "Bool", test(COMP, "popularity_comparison", "max_sat", {"s": "s", "max_sat": "best"}, k=1)),
+    ("C19", "supportUpdate", "(support m : Rat)", "Rat",
+     assign(COMP, "popularity_comparison", "result_support[i]", {"result_support[i]": "support", "sat_profile.multiplicity(sat)": "m"})),
+    ("C19", "maxSupport", "(maxOfSupports : Rat)", "Rat", assign(COMP, "popularity_comparison", "max_support", {"max(result_support)": "maxOfSupports"})),
+    ("C19", "isMostSupported", "(s maxSupport : Rat)", "Bool", test(COMP, "popularity_comparison", "max_support", {"s": "s", "max_support": "maxSupport"})),
+    # ---- C06 / C18: multiplicities (profile vs multiprofile), approval score, total satisfaction
+    ("C06", "listMultiplicity", "", "Rat", whole(PROF, "Profile.multiplicity", {})),
+    ("C06", "multiMultiplicity", "(count : Rat)", "Rat", whole(PROF, "MultiProfile.multiplicity", {"self[ballot]": "count"})),
+    ("C06", "satListMultiplicity", "", "Rat", whole(SATP, "SatisfactionProfile.multiplicity", {})),
+    ("C06", "satMultiMultiplicity", "(count : Rat)", "Rat", whole(SATP, "SatisfactionMultiProfile.multiplicity", {"self[sat]": "count"})),
+    ("C06", "approvalScoreInit", "", "Rat", assign(APR, "AbstractApprovalProfile.approval_score", "approval_score", {}, k=0)),
+    ("C06", "approves", "(inBallot : Bool)", "Bool",
+     test(APR, "AbstractApprovalProfile.approval_score", "project in ballot", {"project in ballot": "inBallot"}, bools=("inBallot",))),
+    ("C06", "approvalScoreUpdate", "(score m : Rat)", "Rat",
+     assign(APR, "AbstractApprovalProfile.approval_score", "approval_score", {"approval_score": "score", "self.multiplicity(ballot)": "m"}, k=1)),
+    ("C06", "totalSatSummand", "(s m : Rat)", "Rat",
+     exprc(SATM, "GroupSatisfactionMeasure.total_satisfaction", "sat.sat(projects) *", {"sat.sat(projects)": "s", "self.multiplicity(sat)": "m"}, kind=ast.BinOp)),
+    ("C06", "totalSatProjectSummand", "(s m : Rat)", "Rat",
+     exprc(SATM, "GroupSatisfactionMeasure.total_satisfaction_project", "sat.sat_project(project) *",
+           {"sat.sat_project(project)": "s", "self.multiplicity(sat)": "m"}, kind=ast.BinOp)),
     # ---- C02 / C07: Equal Shares
     ("C02", "voterShare", "(budget n : Rat)", "Rat", exprc(MES, "method_of_equal_shares", "frac(instance.budget_limit", {"instance.budget_limit": "budget", "profile.num_ballots()": "n"})),
     ("C02", "totalBudget", "(m b : Rat)", "Rat", whole(MES, "MESVoter.total_budget", {"self.multiplicity": "m", "self.budget": "b"})),
@@ -422,7 +546,7 @@ def props_with_leaves():
 
 
 # a property's obligations may also rest on the leaf layer of other properties
-DEPENDS = {"C01": ["C02", "C03", "C04", "C05"], "C07": ["C02"], "C08": ["C13"]}
+DEPENDS = {"C01": ["C02", "C03", "C04", "C05"], "C07": ["C02", "C12"], "C08": ["C13"], "C18": ["C06"]}
 
 
 def regenerate(only=None):
